@@ -13,6 +13,7 @@ CONSTANTS
   Interleave = TRUE
   WithTraffic = FALSE
   WithUnknownStop = FALSE
+  Forms = {1}
   LocMaps <- CanonLocMaps
 INVARIANTS Witness
 VIEW View
